@@ -789,5 +789,28 @@ theorem cw_monitor_accepts_model (s : IOState) (hp : s.panicked = false) (hc : s
       by simp [lineIs, wireDiff_self_encode]⟩
   simp only [Bool.false_eq_true, if_false, h1, h2]
 
+/-! ## `LoggingTransport` -/
+
+/-- what the monitor's bookkeeping holds when the implementation does what the model does -/
+def passedOf : List LogEv → List Passed
+  | [] => []
+  | .read (.msg m) :: t => .read m :: passedOf t
+  | .read (.err _) :: t => .readErr :: passedOf t
+  | .write m o :: t => if o = .panic then passedOf t else .write m :: passedOf t
+
+theorem log_monitor_accepts_model (evs : List LogEv) :
+    logMonitor (passedOf evs) (.entries ((logOf evs).map some)) = none := by
+  have h : entriesAre (passedOf evs) ((logOf evs).map some) = true := by
+    induction evs with
+    | nil => rfl
+    | cons e t ih =>
+      cases e with
+      | read o => cases o <;> simp [passedOf, logOf, logRead, entriesAre, entryIs, wireDiff_self_encode, ih]
+      | write m o =>
+        by_cases hp : o = .panic
+        · simp [passedOf, logOf, logWrite, hp, ih]
+        · simp [passedOf, logOf, logWrite, hp, entriesAre, entryIs, wireDiff_self_encode, ih]
+  simp [logMonitor, h]
+
 end Mon
 end Wire
